@@ -223,7 +223,7 @@ def run(ctx):
     for k in range(n_nets):
         root, ncols, rs = gen_case(ctx, k)
         check_net(ctx, root, ncols, rs, cap, f'net{k}')
-        if len(ctx.violations) >= 3:
+        if ctx.n_new() >= 3:
             break
     ctx.notes.append('total mass is not enumerated by the model: it is evalNet with nothing observed, equal to the enumerated '
                      'sum by Circ.marg / C01_normalised; the implementation side is enumerated when the discrete domain is small')
